@@ -249,7 +249,7 @@ func doHelper(f []string) (out string) {
 			return "err"
 		}
 		return "ok " + hex.EncodeToString([]byte(s))
-	case "oid", "ocls":
+	case "oid", "ocls", "oclsl":
 		var o any
 		switch f[1] {
 		case "both":
@@ -267,6 +267,14 @@ func doHelper(f []string) (out string) {
 		}
 		if f[0] == "oid" {
 			return "ok " + hex.EncodeToString([]byte(goht.ObjectID(o, pfx...)))
+		}
+		if f[0] == "oclsl" {
+			// what the generated code does for `%tag[obj, prefix]`
+			s, err := goht.BuildClassList(goht.ObjectClass(o, pfx...))
+			if err != nil {
+				return "err"
+			}
+			return "ok " + hex.EncodeToString([]byte(s))
 		}
 		return "ok " + hex.EncodeToString([]byte(goht.ObjectClass(o, pfx...)))
 	}
